@@ -9,6 +9,7 @@
 
 mod common;
 mod mutex;
+mod rwlock;
 mod sem;
 
 use common::*;
@@ -18,6 +19,7 @@ fn maker(prim: &str) -> Option<Maker> {
     match prim {
         "sem" => Some(sem::make),
         "mutex" => Some(mutex::make),
+        "rwlock" => Some(rwlock::make),
         _ => None,
     }
 }
@@ -26,6 +28,7 @@ fn new_lines(prim: &str) -> Vec<String> {
     match prim {
         "sem" => [0, 1, 1, 2, 3].iter().map(|n| format!("new sem {}", n)).collect(),
         "mutex" => vec!["new mutex".to_string()],
+        "rwlock" => vec!["new rwlock".to_string()],
         _ => vec![],
     }
 }
